@@ -163,11 +163,14 @@ func (f *DefaultFanController) Run(ctx context.Context) error {
 
 	fanPwmData, err = f.persistence.LoadFanPwmData(fan)
 	if err != nil {
+		// the initialization sequence may already have switched the fan to manual control
+		f.restorePwmEnabled()
 		return err
 	}
 
 	err = fan.AttachFanRpmCurveData(&fanPwmData)
 	if err != nil {
+		f.restorePwmEnabled()
 		return err
 	}
 
